@@ -255,6 +255,12 @@ def targets(ctx):
     def all_cases():
         yield {"all": "depth2", "pkgs": paths(("a", "b"), 2), "wkt": True}
         yield {"all": "depth3_a", "pkgs": ["", "a", "a.a", "a.b", "a.a.a", "a.a.b", "a.b.a", "b", "b.a"], "wkt": False}
+        # names that are string prefixes of each other without being path prefixes (p / pq, a.b / a.bc.d), and a
+        # package-less file next to well-known types
+        yield {"all": "string_prefix_shapes", "pkgs": ["p", "pq", "p.q", "a.b", "a.bc", "a.bc.d", "a.b.d", "ab"], "wkt": True}
+        yield {"all": "root_with_wkt", "pkgs": ["", "a"], "wkt": True}
+        # a type whose name merely *starts like* a sub-package of its own package (x.Tm0 vs package x.Tm)
+        yield {"all": "type_name_extends_subpackage_name", "pkgs": ["x", "x.Tm", "x.Te", "x.Src"], "wkt": False}
         if ctx.thorough:
             yield {"all": "depth3_full", "pkgs": paths(), "wkt": True}
             yield {"all": "alias_shapes", "pkgs": ["", "a", "a.b", "a_b", "a.a_b", "a_b.a", "a.b.a_b", "a_b.a.b"], "wkt": False}
